@@ -227,11 +227,28 @@ pub enum Detect {
     NotConsumed,
 }
 
+#[derive(Clone, Debug, PartialEq, Eq, Hash, Serialize, Deserialize)]
+pub enum Anchor {
+    /// the first tampered message the victim receives from the cheater
+    Tampered,
+    /// the victim's receive of the `occ`-th message labelled `label` from the cheater (taps)
+    FirstRecv { label: String, occ: usize },
+}
+
+pub const OT_GROUP: [&str; 6] = ["CO_OT_s", "CO_OT_r", "CO_OT_c0c1", "ALSZ_OT_setup", "KOS_OT_x_t0_t1", "KOS_OT_corr"];
+
 /// Must-detect oracle (C03/C04).  `whitelist`: labels the victim may still start after it has
-/// received the tampered message (the rest of the same round).
-pub fn must_detect(run: &MpcRun, victim: usize, corrupt: usize, whitelist: &[&str]) -> Detect {
+/// received the tampered message (the rest of the same round).  With `ot_group`, operations of
+/// the concurrently running pairwise OT sessions with *other* peers are allowed as well.
+pub fn must_detect(run: &MpcRun, victim: usize, corrupt: usize, anchor: &Anchor, whitelist: &[String], ot_group: bool) -> Detect {
     let res = &run.res;
-    let Some(at) = first_tampered_recv(&res.events, &res.msgs, victim, corrupt) else {
+    let at = match anchor {
+        Anchor::Tampered => first_tampered_recv(&res.events, &res.msgs, victim, corrupt),
+        Anchor::FirstRecv { label, occ } => res.events.iter().position(|e| {
+            e.party == victim && e.kind == EvKind::RecvDone && e.peer == corrupt && e.msg.map(|id| res.msgs[id].label == *label && res.msgs[id].label_occ == *occ).unwrap_or(false)
+        }),
+    };
+    let Some(at) = at else {
         return match &res.outcomes[victim] {
             Outcome::Panic(m) => Detect::Panicked(m.clone()),
             _ => Detect::NotConsumed,
@@ -239,7 +256,10 @@ pub fn must_detect(run: &MpcRun, victim: usize, corrupt: usize, whitelist: &[&st
     };
     let mut progressed: Option<String> = None;
     for e in &res.events[at + 1..] {
-        if e.party == victim && matches!(e.kind, EvKind::SendStart | EvKind::RecvStart) && !whitelist.contains(&e.label.as_str()) {
+        if e.party == victim && matches!(e.kind, EvKind::SendStart | EvKind::RecvStart) && !whitelist.iter().any(|w| *w == e.label) {
+            if ot_group && e.peer != corrupt && OT_GROUP.contains(&e.label.as_str()) {
+                continue;
+            }
             progressed = Some(format!("{:?} {:?} peer {}", e.kind, e.label, e.peer));
             break;
         }
